@@ -4,6 +4,7 @@
 pub struct ExPoll<T>(std::task::Poll<T>);
 
 global size_of usize == 8;
+use vstd::std_specs::cmp::*;
 
 pub mod ax {
     use vstd::prelude::*;
@@ -19,3 +20,7 @@ pub assume_specification<T>[ std::mem::replace::<T> ](x: &mut T, v: T) -> (r: T)
     ensures r == *old(x), *final(x) == v;
 pub assume_specification<T: Clone>[ <std::ops::Range<T> as Clone>::clone ](r: &std::ops::Range<T>) -> (x: std::ops::Range<T>)
     ensures x.start == r.start, x.end == r.end;
+
+/// std::cmp::min (assumed std contract, stated over the type's specified total order).
+pub assume_specification<T: Ord>[ std::cmp::min::<T> ](a: T, b: T) -> (r: T)
+    ensures T::obeys_cmp_spec() ==> r == (if a.cmp_spec(&b) == std::cmp::Ordering::Greater { b } else { a });
